@@ -10,7 +10,7 @@ import shutil
 
 ROUNDS = [("r1", "/tmp/seeded-out", "all 20 quick checks"), ("r2", "/tmp/seeded-out2", "target property + C15"),
           ("r3", "/tmp/seeded-out3", "target property + C15"), ("r4", "/tmp/seeded-out4", "target property + C15"),
-          ("r5", "/tmp/seeded-out5", "target property + C15")]
+          ("r5", "/tmp/seeded-out5", "target property + C15"), ("r6", "/tmp/seeded-out6", "target property + C15")]
 DST = "/verif/seeded"
 
 
@@ -31,7 +31,7 @@ def main():
                 e = last_json(os.path.join(d, "eval%d.json" % k))
                 if e is None:
                     continue
-                a = last_json(os.path.join(d, "evalafter%d.json" % k)) or {}
+                a = last_json(os.path.join(d, "evalafter%d.json" % k)) or (e if rnd == "r6" else {})   # r6: no strengthening needed unless re-evaluated
                 confirmed = e.get("demo_clean") == 0 and e.get("applies") and e.get("demo_patched") == 1 and str(e.get("tests", "")).startswith("10 failed, 42 passed")
                 sid = "%s-%s-%d" % (pid, rnd, k)
                 first = [c["property"] for c in e.get("caught_by", [])]
@@ -52,7 +52,8 @@ def main():
                                 "; told to assume a straightforward random test on fresh objects of <=60 residues already exists" if rnd == "r2" else
                                 "; told to list the property's clauses and break the two least likely to be exercised, avoiding the mechanisms of rounds 1-2" if rnd == "r3" else
                                 "; told to assume a strong randomized suite already exists and to make each change need a conjunction of two independent rare conditions" if rnd == "r4" else
-                                "; told to present each change as a plausible maintenance commit (modernisation, optimisation, refactoring, validation tidy-up) with its commit message, no artificial trapdoors" if rnd == "r5" else ""),
+                                "; told to present each change as a plausible maintenance commit (modernisation, optimisation, refactoring, validation tidy-up) with its commit message, no artificial trapdoors" if rnd == "r5" else
+                                "; as r5, one change per agent, told to list the property's clauses and break the clause / secondary entry point / optional argument least likely to be exercised by a suite written from the headline" if rnd == "r6" else ""),
                             needs_to_manifest=notes.strip()[:1800],
                             verified=dict(demo_on_clean_copy_exit=e["demo_clean"], patch_applies=e["applies"], pinned_suite=e["tests"], demo_with_patch_exit=e["demo_patched"],
                                           how="selftest/seeded.py seeded/%s/patch.diff seeded/%s/demo.py --props %s  (scratch copy of /repo, VERIF_REPO)" % (sid, sid, pid)),
@@ -68,7 +69,8 @@ def main():
                 "long sequences, histories, caller-owned containers and boundary values already exists, and that each change must need a CONJUNCTION of two\n"
                 "independent, individually unremarkable conditions, ideally rarer than 1 in 2000 random inputs; round r5 agents were told to present each\n"
                 "change as an ordinary, well-meant maintenance commit -- modernisation, optimisation, refactoring, validation tidy-up -- with its commit\n"
-                "message, without artificial trapdoors, slipping on an edge of the documented behaviour). 'confirmed' = demo passes on a clean copy,\n"
+                "message, without artificial trapdoors, slipping on an edge of the documented behaviour; round r6 (12 properties, one change each) repeated r5's\n"
+                "brief and asked for the clause, secondary entry point or optional argument least likely to be exercised by a suite written from the headline). 'confirmed' = demo passes on a clean copy,\n"
                 "patch applies, pinned suite unchanged (10 failed, 42 passed), demo fails with the patch. 'first evaluation' = quick checks that raised\n"
                 "a VIOLATION when the change arrived (r1: all 20 quick checks were run; r2: only the target property and C15). 'target now' = does the\n"
                 "target property's own quick check catch it after the strengthening described in DESIGN.md 9.3 / 9.7, and in which buckets.\n\n"
